@@ -180,9 +180,16 @@ BigSent == /\ Is("bigsent")
            /\ A("C01", "very-long-run-is-tokenized-and-partitioned", ~E.panic /\ E.partition_ok /\ E.ntok > 0)
            /\ UNCHANGED <<dict, opts, ws, cnt, memo>>
 
+(* a worker that has served more than 65536 sentences: the history is too long to be replayed here; the
+   harness compares every result with a fresh worker's (C04: the result is a function of the sentence,
+   not of what the worker did before) and this action asserts the verdict *)
+LongLife == /\ Is("longlife")
+            /\ A("C04", "long-lived-worker-agrees-with-a-fresh-one", ~E.panic /\ E.mismatches = 0)
+            /\ UNCHANGED <<dict, opts, ws, cnt, memo>>
+
 Summary == Is("stress_summary") /\ UNCHANGED <<dict, opts, ws, cnt, memo>>
 
-Next == Summary \/ Renew \/ BuildErr \/ BigSent \/ PanicStuck \/ PanicElsewhere \/ Session \/ Reset \/ Tok \/ Read \/ CInit \/ CUpd \/ Probs \/ Respace \/ OptErr
+Next == Summary \/ Renew \/ BuildErr \/ BigSent \/ LongLife \/ PanicStuck \/ PanicElsewhere \/ Session \/ Reset \/ Tok \/ Read \/ CInit \/ CUpd \/ Probs \/ Respace \/ OptErr
 Spec == Init /\ [][Next]_vars
 
 Accepted ==
